@@ -24,7 +24,7 @@ echo "|---|---|---|---|---|"
 } > "$OUT"
 for P in $LIST; do
   ID=$(basename "$P" .diff); PROP=${ID%%-*}
-  git -C "$SCRATCH/wt" checkout -q -- . ; git -C "$SCRATCH/wt" apply "$P" 2>/dev/null || { echo "| $ID | $PROP | patch does not apply | - | - |" >> "$OUT"; continue; }
+  git -C "$SCRATCH/wt" reset -q --hard; { git -C "$SCRATCH/wt" apply --3way "$P" 2>/dev/null || git -C "$SCRATCH/wt" apply "$P" 2>/dev/null; } || { echo "| $ID | $PROP | patch does not apply | - | - |" >> "$OUT"; continue; }
   (cd "$SCRATCH/wt" && timeout 300 cargo test --workspace --no-fail-fast --offline > "$SCRATCH/out/$ID.suite" 2>&1); [ $? = 124 ] && echo "SUITE-TIMEOUT" >> "$SCRATCH/out/$ID.suite"
   PASSED=$(grep -E "^test result: ok" "$SCRATCH/out/$ID.suite" | awk '{s+=$4} END {print s+0}')
   FAILED=$(grep -E "^test result:" "$SCRATCH/out/$ID.suite" | awk '{s+=$6} END {print s+0}')
